@@ -348,6 +348,10 @@ def argOK : Arg → Prop
   | .flags _ => True
   | .kw _ => True
   | .okw _ => True
+  | .loc i => identOK i
+  | .pad p => ∀ i ∈ p, identOK i
+  | .labs l => ∀ i ∈ l, identOK i
+  | .unwind u => ∀ i ∈ u, identOK i
 
 /-- a local or a global (not a constant) -/
 def isRef : Operand → Bool
@@ -378,6 +382,11 @@ inductive Matches : List Slot → List Arg → Prop
   | kw (ks : List Bytes) (i : Nat) (hi : i < ks.length) {fs : List Slot} {as : List Arg} : Matches fs as → Matches (.kw ks :: fs) (.kw i :: as)
   | okw (ks : List Bytes) (o : Option Nat) (ho : ∀ i ∈ o, i < ks.length) {fs : List Slot} {as : List Arg} :
       Matches fs as → Matches (.okw ks :: fs) (.okw o :: as)
+  | loc (i : Ident) {fs : List Slot} {as : List Arg} : Matches fs as → Matches (.loc :: fs) (.loc i :: as)
+  | pad (p : Option Ident) {fs : List Slot} {as : List Arg} : Matches fs as → Matches (.pad :: fs) (.pad p :: as)
+  | labs (l : List Ident) {fs : List Slot} {as : List Arg} : Matches fs as → Matches (.labs :: fs) (.labs l :: as)
+  | unwind (u : Option Ident) {fs : List Slot} {as : List Arg} : Matches fs as → Matches (.unwind :: fs) (.unwind u :: as)
+  | eargs (ixs : List (Ty × Operand)) {fs : List Slot} {as : List Arg} : Matches fs as → Matches (.eargs :: fs) (.tyvals ixs :: as)
 
 theorem matches_nil (as : List Arg) (h : Matches [] as) : as = [] := by cases h; rfl
 
@@ -497,6 +506,11 @@ def fmtOK : List Slot → Bool
   | .flags ks :: fs => keysOK ks && (match fs with | .tyval :: _ => true | .ty :: .lit (44 :: 32 :: _) :: _ => true | .kw ks2 :: _ => flagsKwOK ks ks2 | _ => false) && fmtOK fs
   | .kw ks :: fs => kwsDiverge ks && fmtOK fs
   | .okw ks :: fs => kwsDiverge ks && startSp ks && (match fs with | [.align] => true | _ => false)
+  | .loc :: fs => labFollow fs && fmtOK fs
+  | .pad :: fs => labFollow fs && fmtOK fs
+  | .labs :: fs => (match fs with | .lit (93 :: _) :: _ => true | _ => false) && fmtOK fs
+  | .unwind :: fs => fs.isEmpty
+  | .eargs :: fs => fs.isEmpty
 
 theorem endOK_print (useHex : Int → Bool) (cur : Ty) (fs : List Slot) (as : List Arg)
     (hs : startsComma fs = true) : endOK (printSlots useHex cur fs as) = true := by
@@ -796,6 +810,99 @@ theorem readCargs_print (useHex : Int → Bool) (ixs : List (Ty × Operand)) (hk
     simp only [readCargs, hne, Bool.false_eq_true, if_false, hl, beq_self_eq_true, if_true, hd]
     exact hrt
 
+theorem readEargs_print (useHex : Int → Bool) (ixs : List (Ty × Operand)) (hk : ∀ p ∈ ixs, operandOK p.2) :
+    readEargs (eargsString useHex ixs) = some ixs := by
+  cases ixs with
+  | nil => simp [eargsString, tyvalsString, readEargs]
+  | cons p rest =>
+    obtain ⟨t, o⟩ := p
+    have hs : tyvalsString useHex ((t, o) :: rest) = sComma ++ (tyString t ++ 32 :: (operandString useHex t o ++ tyvalsString useHex rest)) := by
+      simp [tyvalsString]
+    obtain ⟨c, cs, hc⟩ : ∃ c cs, tyString t ++ 32 :: (operandString useHex t o ++ tyvalsString useHex rest) = c :: cs := by
+      cases h : tyString t ++ 32 :: (operandString useHex t o ++ tyvalsString useHex rest) with
+      | nil => simp at h
+      | cons c cs => exact ⟨c, cs, rfl⟩
+    have hlen := tyvalsString_len useHex ((t, o) :: rest)
+    have hx : eargsString useHex ((t, o) :: rest) = 91 :: ((c :: cs) ++ [93]) := by
+      simp only [eargsString, hs, hc, sComma]; rfl
+    have hne : ((c :: cs) ++ [93] == [93]) = false := by
+      cases cs <;> simp
+    have hl : ((c :: cs) ++ [93]).getLast? = some 93 := by
+      rw [List.getLast?_append]; simp
+    have hd : ((c :: cs) ++ [93]).dropLast = c :: cs := List.dropLast_concat
+    have hfuel : ((t, o) :: rest).length + 1 ≤ ((c :: cs) ++ [93]).length + 2 := by
+      rw [hs, hc] at hlen
+      simp only [List.length_append, List.length_cons, sComma, List.length_nil] at hlen ⊢
+      omega
+    have hrt := readTyvals_print useHex ((t, o) :: rest) _ hk hfuel
+    rw [hs, hc] at hrt
+    rw [hx]
+    simp only [readEargs, hne, Bool.false_eq_true, if_false, hl, beq_self_eq_true, if_true, hd]
+    exact hrt
+
+theorem readPad_print (p : Option Ident) (r : Bytes) (hp : ∀ i ∈ p, identOK i) (hr : identEnd r = true) :
+    readPad (padString p ++ r) = some (p, r) := by
+  cases p with
+  | none => simp [padString, readPad, sNone, TyParse.stripPrefix]
+  | some i =>
+    have hi := hp i rfl
+    obtain ⟨rest, hh⟩ := identString_head i hi
+    have hd : (identString i ++ r).head? = some 37 := by rw [hh]; rfl
+    simp only [padString, readPad, hd, beq_self_eq_true, if_true, readIdent_identString i r hi hr]
+
+theorem labsString_head (i : Ident) (l : List Ident) : ∃ rest, labsString (i :: l) = sLabel ++ rest := by
+  cases l with
+  | nil => exact ⟨identString i, rfl⟩
+  | cons j r => exact ⟨identString i ++ sComma ++ labsString (j :: r), by simp [labsString]⟩
+
+theorem readLabs_print : ∀ (l : List Ident) (r : Bytes) (f : Nat), (∀ i ∈ l, identOK i) → r.head? = some 93 → l.length + 1 ≤ f →
+    readLabs f (labsString l ++ r) = some (l, r)
+  | [], r, f, _, hr, hf => by
+    obtain ⟨f', rfl⟩ : ∃ f', f = f' + 1 := ⟨f - 1, by simp at hf; omega⟩
+    cases r with
+    | nil => simp at hr
+    | cons c r' => simp at hr; subst hr; simp [labsString, readLabs, sLabel, TyParse.stripPrefix]
+  | [i], r, f, hl, hr, hf => by
+    obtain ⟨f', rfl⟩ : ∃ f', f = f' + 1 := ⟨f - 1, by simp at hf; omega⟩
+    have hi := hl i (by simp)
+    cases r with
+    | nil => simp at hr
+    | cons c r' =>
+      simp at hr; subst hr
+      have he : identEnd (93 :: r') = true := by simp [identEnd, inTail, inHead, isAlpha, isUpper, isLower, isDigit]
+      have e : labsString [i] ++ 93 :: r' = sLabel ++ (identString i ++ 93 :: r') := by simp [labsString]
+      rw [e]
+      simp only [readLabs, TyParse.stripPrefix_append, readIdent_identString i _ hi he]
+      rfl
+  | i :: j :: l, r, f, hl, hr, hf => by
+    obtain ⟨f', rfl⟩ : ∃ f', f = f' + 1 := ⟨f - 1, by simp at hf; omega⟩
+    have hi := hl i (by simp)
+    have ih := readLabs_print (j :: l) r f' (fun x hx => hl x (by simp [hx])) hr (by simp at hf ⊢; omega)
+    obtain ⟨rest, hrest⟩ := labsString_head j l
+    have he : identEnd (44 :: 32 :: (labsString (j :: l) ++ r)) = true := by simp [identEnd, inTail, inHead, isAlpha, isUpper, isLower, isDigit]
+    have e : labsString (i :: j :: l) ++ r = sLabel ++ (identString i ++ 44 :: 32 :: (labsString (j :: l) ++ r)) := by
+      simp [labsString, sComma]
+    rw [e]
+    simp only [readLabs, TyParse.stripPrefix_append, readIdent_identString i _ hi he]
+    have hsp : TyParse.stripPrefix sLabel (labsString (j :: l) ++ r) = some (rest ++ r) := by
+      rw [hrest, List.append_assoc, TyParse.stripPrefix_append]
+    simp only [hsp, ih]
+
+theorem readUnwind_print (u : Option Ident) (hu : ∀ i ∈ u, identOK i) : readUnwind (unwindString u) = some u := by
+  cases u with
+  | none => simp [unwindString, readUnwind]
+  | some i =>
+    have hi := hu i rfl
+    have hne : (sLabel ++ identString i == sToCaller) = false := by simp [sLabel, sToCaller]
+    have hr := readIdent_identString i [] hi rfl
+    simp only [List.append_nil] at hr
+    simp only [unwindString, readUnwind, hne, Bool.false_eq_true, if_false, TyParse.stripPrefix_append, hr]
+
+theorem labsString_len : ∀ (l : List Ident), l.length ≤ (labsString l).length
+  | [] => by simp [labsString]
+  | [i] => by simp [labsString, sLabel]
+  | i :: j :: l => by have := labsString_len (j :: l); simp [labsString, sLabel] at this ⊢; omega
+
 theorem read_print_slots (useHex : Int → Bool) (fs : List Slot) (as : List Arg) (hm : Matches fs as) :
     ∀ (cur : Ty), fmtOK fs = true → (∀ a ∈ as, argOK a) →
       readSlots cur fs (printSlots useHex cur fs as) = some (as, []) := by
@@ -1032,6 +1139,57 @@ theorem read_print_slots (useHex : Int → Bool) (fs : List Slot) (as : List Arg
         have := ih cur hfmt ha'
         simp only [printSlots, readSlots] at this
         simp only [this]
+  | @loc i fs' as' hm ih =>
+    intro cur hf ha
+    simp only [fmtOK, Bool.and_eq_true] at hf
+    have hi : identOK i := ha (.loc i) (by simp)
+    have ha' : ∀ a ∈ as', argOK a := fun a h => ha a (by simp [h])
+    simp only [printSlots, readSlots]
+    simp only [readIdent_identString i _ hi (labEnd_print useHex cur fs' as' hf.1)]
+    simp only [ih cur hf.2 ha']
+  | @pad p fs' as' hm ih =>
+    intro cur hf ha
+    simp only [fmtOK, Bool.and_eq_true] at hf
+    have hp : ∀ i ∈ p, identOK i := ha (.pad p) (by simp)
+    have ha' : ∀ a ∈ as', argOK a := fun a h => ha a (by simp [h])
+    simp only [printSlots, readSlots]
+    simp only [readPad_print p _ hp (labEnd_print useHex cur fs' as' hf.1)]
+    simp only [ih cur hf.2 ha']
+  | @labs l fs' as' hm ih =>
+    intro cur hf ha
+    simp only [fmtOK, Bool.and_eq_true] at hf
+    obtain ⟨hshape, hf2⟩ := hf
+    have hl : ∀ i ∈ l, identOK i := ha (.labs l) (by simp)
+    have ha' : ∀ a ∈ as', argOK a := fun a h => ha a (by simp [h])
+    obtain ⟨lt, fs'', hfs⟩ : ∃ lt fs'', fs' = .lit (93 :: lt) :: fs'' := by
+      split at hshape
+      · exact ⟨_, _, rfl⟩
+      · cases hshape
+    subst hfs
+    have hhead : (printSlots useHex cur (.lit (93 :: lt) :: fs'') as').head? = some 93 := by simp [printSlots]
+    have hrl := readLabs_print l _ ((labsString l ++ printSlots useHex cur (.lit (93 :: lt) :: fs'') as').length + 1) hl hhead
+      (by have := labsString_len l; simp only [List.length_append]; omega)
+    simp only [printSlots, readSlots] at hrl ⊢
+    rw [hrl]
+    have := ih cur hf2 ha'
+    simp only [printSlots, readSlots] at this
+    simp only [this]
+  | @unwind u fs' as' hm ih =>
+    intro cur hf ha
+    simp only [fmtOK, List.isEmpty_iff] at hf
+    subst hf
+    have := matches_nil as' hm; subst this
+    have hu : ∀ i ∈ u, identOK i := ha (.unwind u) (by simp)
+    simp only [printSlots, readSlots, List.append_nil]
+    rw [readUnwind_print u hu]
+  | @eargs ixs fs' as' hm ih =>
+    intro cur hf ha
+    simp only [fmtOK, List.isEmpty_iff] at hf
+    subst hf
+    have := matches_nil as' hm; subst this
+    have hk : ∀ p ∈ ixs, operandOK p.2 := ha (.tyvals ixs) (by simp)
+    simp only [printSlots, readSlots, List.append_nil]
+    rw [readEargs_print useHex ixs hk]
   | @flagsKw ks xs ks2 i hb hi fs' as' hm ih =>
     intro cur hf ha
     simp only [fmtOK, Bool.and_eq_true] at hf
